@@ -779,97 +779,96 @@ class Tr:
 
     def stmt(self, s, rest, env, facts, cont):
         """one statement; updates env in place and returns None, or returns the value of the whole remaining block"""
-        if True:
-            if isinstance(s, ast.Pass) or (isinstance(s, ast.Expr) and isinstance(s.value, ast.Constant)):
-                return None
-            if isinstance(s, ast.Return):
-                return NoneV() if s.value is None else self.expr(s.value, env, facts)
-            if isinstance(s, ast.Assign) and len(s.targets) == 1 and isinstance(s.targets[0], ast.Name) and isinstance(s.value, ast.Call) \
-                    and isinstance(s.value.func, ast.Attribute) and s.value.func.attr == "popleft" and isinstance(s.value.func.value, ast.Name) \
-                    and not s.value.args and not s.value.keywords:
-                env[s.targets[0].id] = self.popleft(s.value.func.value.id, env, s)
-                return None
-            if isinstance(s, ast.Expr) and isinstance(s.value, ast.Call) and isinstance(s.value.func, ast.Attribute) \
-                    and s.value.func.attr == "popleft" and isinstance(s.value.func.value, ast.Name) and not s.value.args and not s.value.keywords:
-                self.popleft(s.value.func.value.id, env, s)
-                return None
-            if isinstance(s, ast.Assign) and len(s.targets) == 1 and isinstance(s.targets[0], ast.Subscript) \
-                    and isinstance(s.targets[0].value, ast.Name) and is_list(env.get(s.targets[0].value.id)) \
-                    and isinstance(s.targets[0].slice, ast.Constant) and s.targets[0].slice.value == 0:
-                name = s.targets[0].value.id                     # dfs[0] = <batch>
-                x = self.expr(s.value, env, facts)
-                lst = env[name]
-                if not (isinstance(x, Ser) and not x.sq):
-                    self.err("%s[0] = %s" % (name, self.show_ty(x)), s)
-                if lst.b != ("fresh",):
-                    self.err("%s[0] = ...: not a local holding a fresh list" % name, s)
-                if lst.cons is None:
-                    if lst.var:
-                        raise NeedSplit(name)
-                    self.err("%s[0] = ...: the list is not known to be non-empty" % name, s)
-                env[name] = mk_list("(%s :: %s)" % (x.term, lst.cons[1]), cons=(x.term, lst.cons[1]))
-                return None
-            if isinstance(s, ast.Assign):
-                v = self.expr(s.value, env, facts)
-                if isinstance(s.value, ast.Name) and isinstance(v, Sc) and isinstance(v.ty, tuple) and v.ty[0] == "L":
-                    self.err("a second name for a list (a later append would be seen through both)", s)
-                for tgt in s.targets:
-                    self.assign(tgt, v, env, s)
-                return None
-            if isinstance(s, ast.AugAssign):
-                if not isinstance(s.target, ast.Name):
-                    self.err("augmented assignment to %s" % ast.unparse(s.target), s)
-                cur = env.get(s.target.id)
-                if not (isinstance(cur, Sc) and cur.ty in SCALARS):
-                    # `acc += x` on a pandas object updates it IN PLACE: the state the caller still holds (the one emitted
-                    # for the previous batch) would change under its feet.  On numbers it is a plain rebinding.
-                    self.err("augmented assignment to %s, which holds %s: an in-place update of an object the caller can see"
-                             % (s.target.id, self.show_ty(cur) if cur is not None else "nothing"), s)
-                if isinstance(s.op, ast.Pow):
-                    if not (isinstance(s.value, ast.Constant) and isinstance(s.value.value, int)):
-                        self.err("power with an exponent that is not an integer literal", s)
-                    v = self.power(self.expr(s.target, env, facts), s.value.value, facts, s)
-                else:
-                    v = self.binop(s.op, self.expr(s.target, env, facts), self.expr(s.value, env, facts), facts, s)
-                self.assign(s.target, v, env, s)
-                return None
-            if isinstance(s, ast.Expr) and isinstance(s.value, ast.Call) and isinstance(s.value.func, ast.Attribute) \
-                    and s.value.func.attr == "append" and isinstance(s.value.func.value, ast.Name) \
-                    and len(s.value.args) == 1 and not s.value.keywords:
-                name = s.value.func.value.id
-                lst = env.get(name)
-                x = self.expr(s.value.args[0], env, facts)
-                if not (isinstance(lst, Sc) and isinstance(lst.ty, tuple) and lst.ty[0] == "L" and lst.b == ("fresh",)):
-                    self.err("append to %s, which is not a local holding a fresh list" % name, s)
-                if not (isinstance(x, Ser) and not x.sq and lst.ty[1] == "S"):
-                    self.err("append of %s to a list of batches" % self.show_ty(x), s)
-                if lst.cons is not None:
-                    t2 = "(%s ++ [%s])" % (lst.cons[1], x.term)
-                    env[name] = mk_list("(%s :: %s)" % (lst.cons[0], t2), cons=(lst.cons[0], t2))
-                else:
-                    env[name] = mk_list("(%s ++ [%s])" % (lst.term, x.term))
-                return None
-            if isinstance(s, ast.If):
-                nt = self.none_test(s.test, env)
-                if nt is not None:
-                    name, none_first = nt
-                    opt = env[name]
-                    var = re.sub(r"\W", "_", opt.term) + "_v"
-                    e_none, e_some = dict(env), dict(env)
-                    e_none[name] = NoneV()
-                    e_some[name] = Sc(opt.ty[1], var)
-                    a = self.block(list(s.body if none_first else s.orelse) + rest, e_none, facts, cont)
-                    b = self.block(list(s.orelse if none_first else s.body) + rest, e_some, facts, cont)
-                    return self.mkmatch(opt.term, var, a, b, s)
-                c = self.truth(self.expr(s.test, env, facts), s.test)
-                if is_const(c):
-                    return self.block(list(s.body if c.b[1] else s.orelse) + rest, env, facts, cont)
-                a = self.block(list(s.body) + rest, env, facts + implied(c, True), cont)
-                b = self.block(list(s.orelse) + rest, env, facts + implied(c, False), cont)
-                return self.mkif(c, a, b, s)
-            if isinstance(s, ast.While):
-                return self.loop(s, rest, env, facts, cont)
-            self.err("statement form %s: %s" % (type(s).__name__, ast.unparse(s).split("\n")[0]), s)
+        if isinstance(s, ast.Pass) or (isinstance(s, ast.Expr) and isinstance(s.value, ast.Constant)):
+            return None
+        if isinstance(s, ast.Return):
+            return NoneV() if s.value is None else self.expr(s.value, env, facts)
+        if isinstance(s, ast.Assign) and len(s.targets) == 1 and isinstance(s.targets[0], ast.Name) and isinstance(s.value, ast.Call) \
+                and isinstance(s.value.func, ast.Attribute) and s.value.func.attr == "popleft" and isinstance(s.value.func.value, ast.Name) \
+                and not s.value.args and not s.value.keywords:
+            env[s.targets[0].id] = self.popleft(s.value.func.value.id, env, s)
+            return None
+        if isinstance(s, ast.Expr) and isinstance(s.value, ast.Call) and isinstance(s.value.func, ast.Attribute) \
+                and s.value.func.attr == "popleft" and isinstance(s.value.func.value, ast.Name) and not s.value.args and not s.value.keywords:
+            self.popleft(s.value.func.value.id, env, s)
+            return None
+        if isinstance(s, ast.Assign) and len(s.targets) == 1 and isinstance(s.targets[0], ast.Subscript) \
+                and isinstance(s.targets[0].value, ast.Name) and is_list(env.get(s.targets[0].value.id)) \
+                and isinstance(s.targets[0].slice, ast.Constant) and s.targets[0].slice.value == 0:
+            name = s.targets[0].value.id                     # dfs[0] = <batch>
+            x = self.expr(s.value, env, facts)
+            lst = env[name]
+            if not (isinstance(x, Ser) and not x.sq):
+                self.err("%s[0] = %s" % (name, self.show_ty(x)), s)
+            if lst.b != ("fresh",):
+                self.err("%s[0] = ...: not a local holding a fresh list" % name, s)
+            if lst.cons is None:
+                if lst.var:
+                    raise NeedSplit(name)
+                self.err("%s[0] = ...: the list is not known to be non-empty" % name, s)
+            env[name] = mk_list("(%s :: %s)" % (x.term, lst.cons[1]), cons=(x.term, lst.cons[1]))
+            return None
+        if isinstance(s, ast.Assign):
+            v = self.expr(s.value, env, facts)
+            if isinstance(s.value, ast.Name) and isinstance(v, Sc) and isinstance(v.ty, tuple) and v.ty[0] == "L":
+                self.err("a second name for a list (a later append would be seen through both)", s)
+            for tgt in s.targets:
+                self.assign(tgt, v, env, s)
+            return None
+        if isinstance(s, ast.AugAssign):
+            if not isinstance(s.target, ast.Name):
+                self.err("augmented assignment to %s" % ast.unparse(s.target), s)
+            cur = env.get(s.target.id)
+            if not (isinstance(cur, Sc) and cur.ty in SCALARS):
+                # `acc += x` on a pandas object updates it IN PLACE: the state the caller still holds (the one emitted
+                # for the previous batch) would change under its feet.  On numbers it is a plain rebinding.
+                self.err("augmented assignment to %s, which holds %s: an in-place update of an object the caller can see"
+                         % (s.target.id, self.show_ty(cur) if cur is not None else "nothing"), s)
+            if isinstance(s.op, ast.Pow):
+                if not (isinstance(s.value, ast.Constant) and isinstance(s.value.value, int)):
+                    self.err("power with an exponent that is not an integer literal", s)
+                v = self.power(self.expr(s.target, env, facts), s.value.value, facts, s)
+            else:
+                v = self.binop(s.op, self.expr(s.target, env, facts), self.expr(s.value, env, facts), facts, s)
+            self.assign(s.target, v, env, s)
+            return None
+        if isinstance(s, ast.Expr) and isinstance(s.value, ast.Call) and isinstance(s.value.func, ast.Attribute) \
+                and s.value.func.attr == "append" and isinstance(s.value.func.value, ast.Name) \
+                and len(s.value.args) == 1 and not s.value.keywords:
+            name = s.value.func.value.id
+            lst = env.get(name)
+            x = self.expr(s.value.args[0], env, facts)
+            if not (isinstance(lst, Sc) and isinstance(lst.ty, tuple) and lst.ty[0] == "L" and lst.b == ("fresh",)):
+                self.err("append to %s, which is not a local holding a fresh list" % name, s)
+            if not (isinstance(x, Ser) and not x.sq and lst.ty[1] == "S"):
+                self.err("append of %s to a list of batches" % self.show_ty(x), s)
+            if lst.cons is not None:
+                t2 = "(%s ++ [%s])" % (lst.cons[1], x.term)
+                env[name] = mk_list("(%s :: %s)" % (lst.cons[0], t2), cons=(lst.cons[0], t2))
+            else:
+                env[name] = mk_list("(%s ++ [%s])" % (lst.term, x.term))
+            return None
+        if isinstance(s, ast.If):
+            nt = self.none_test(s.test, env)
+            if nt is not None:
+                name, none_first = nt
+                opt = env[name]
+                var = re.sub(r"\W", "_", opt.term) + "_v"
+                e_none, e_some = dict(env), dict(env)
+                e_none[name] = NoneV()
+                e_some[name] = Sc(opt.ty[1], var)
+                a = self.block(list(s.body if none_first else s.orelse) + rest, e_none, facts, cont)
+                b = self.block(list(s.orelse if none_first else s.body) + rest, e_some, facts, cont)
+                return self.mkmatch(opt.term, var, a, b, s)
+            c = self.truth(self.expr(s.test, env, facts), s.test)
+            if is_const(c):
+                return self.block(list(s.body if c.b[1] else s.orelse) + rest, env, facts, cont)
+            a = self.block(list(s.body) + rest, env, facts + implied(c, True), cont)
+            b = self.block(list(s.orelse) + rest, env, facts + implied(c, False), cont)
+            return self.mkif(c, a, b, s)
+        if isinstance(s, ast.While):
+            return self.loop(s, rest, env, facts, cont)
+        self.err("statement form %s: %s" % (type(s).__name__, ast.unparse(s).split("\n")[0]), s)
 
     def loop(self, s, rest, env, facts, cont):
         """`while c: body` followed by `rest`: a recursive function on explicit fuel over the variables the body updates
